@@ -15,9 +15,7 @@ def main():
     for (nk, nv, lf, it, spec) in insts:
         r = tlc.run('BTreeImpl', shapes.cfg(nk, nv, lf, it, spec=spec, invariants=INVS), timeout=3000)
         ck.add_tlc(r.summary(), '%s keys=%d sizes=(%d,%d)' % (spec, nk, lf, it))
-        if not r.ok:
-            ck.violation('TLC: %s violated on the specification (%s keys=%d sizes=%d/%d): %s' % (
-                r.violation or r.error, spec, nk, lf, it, r.out[-1500:]), dict(kind='tlc', inst=[nk, nv, lf, it]))
+        common.tlc_verdict(ck, r, ck.notes['tlc_runs'][-1]['name'])
     # 2. spec -> code: the real structure equals the (sound) model structure after every replayed
     #    transition; both checkers accept
     dumps = []
